@@ -134,6 +134,8 @@ GSFA_SHRINK = [{"file": "gsfa/gsfa-write.go", "rules": [
     # popularity rank keeps only the keys with the single highest flush count, so that the periodic
     # partial flush can also pick addresses that still have a full batch parked in the background writer
     {"old": "10_000", "new": "1"},
+    # "fewer than 100 pending entries" threshold of the periodic partial flush, scaled like the batch size (1000 -> 4)
+    {"old": "100", "new": "2"},
 ]}]
 
 PROPS["C06"] = {
